@@ -75,6 +75,59 @@ def dead_len(res, facts):
     return n
 
 
+def judge_view_len(facts, b, only_blocks=None):
+    """sites: every Vec::from_raw_parts(B, L, _) / v.set_len(L); when L is a *view* length (the `len` of a slot function, the len field of the
+    consumed handle) a copy of the view to the buffer start must dominate.  A site whose L is not a view length demands nothing (emitted with
+    skip=True so that a helper's site can be matched in the views of its callers)."""
+    out = []
+    eb = ExprBuilder(b, facts, inline=True)
+    cfg = cfg_of(b)
+    calls = []
+    for bi, t in b.calls():
+        if b.blocks[bi]["cleanup"]:
+            continue
+        fn = callee(t)
+        if fn is None:
+            continue
+        loc = (bi, len(b.blocks[bi]["stmts"]))
+        rp = (fn.get("res") or fn)["path"]
+        calls.append((bi, rp, rp.rsplit("::", 1)[-1] if (fn.get("res") or {}).get("via") else fn["name"], [canon(eb.operand(a, loc)) for a in t["args"]], t))
+    copies = [(bi, strip_ptr(a[0]), strip_ptr(a[1]), a[2]) for (bi, p, nm, a, t) in calls if nm in ("copy", "copy_nonoverlapping") and p.startswith("core::") and len(a) == 3]
+    for (bi, p, nm, a, t) in calls:
+        if only_blocks is not None and bi not in only_blocks:
+            continue
+        site = None
+        if p == "alloc::vec::Vec::<T>::from_raw_parts":
+            B, L, C = strip_ptr(a[0]), a[1], a[2]
+            site = ("from_raw_parts", B, L)
+        elif nm == "set_len" and "alloc::vec::Vec" in p:
+            V = strip_ref(a[0])
+            site = ("set_len", ("call", "alloc::vec::Vec::<T, A>::as_mut_ptr", (("ref", V),)), a[1])
+        if site is None:
+            continue
+        kind, B, L = site
+        view_len = (L[0] == "param" and b.locals[L[1]]["ty"] == "usize" and b.safety == "unsafe") or \
+                   (isinstance(L, tuple) and L[0] == "field" and L[2] == "len" and strip_ref(L[1])[0] == "param")
+        if not view_len:
+            out.append({"bi": bi, "j": 0, "ok": True, "skip": True, "kind": kind, "text": "length is not a view length"})
+            continue
+        ok = False
+        for (cbi, src, dst, cn) in copies:
+            if not (cfg.dominates(cbi, bi) and cbi != bi):
+                continue
+            if cn != L:
+                continue
+            d0 = dst
+            same_dst = (d0 == B) or (is_call(d0, "as_mut_ptr") and is_call(B, "as_mut_ptr") and strip_ref(d0[2][0]) == strip_ref(B[2][0]))
+            if same_dst:
+                ok = True
+        out.append({"bi": bi, "j": 0, "ok": ok, "kind": kind, "nontrivial": True,
+                    "text": "copy(view ptr -> buffer start, len) dominates giving the Vec the view's length" if ok else
+                            "a Vec over the buffer start gets the view's length without a dominating copy of the view to the buffer start: "
+                            "wrong bytes whenever the view has a front offset"})
+    return out
+
+
 def run(facts):
     res = Result("A9", "Vec conversions copy the view back to the buffer start before shrinking to the view's length; handles rebuilt over the "
                        "whole buffer re-apply the front offset with the same operand")
@@ -94,46 +147,21 @@ def run(facts):
             calls.append((bi, rp, rp.rsplit("::", 1)[-1] if (fn.get("res") or {}).get("via") else fn["name"], [canon(eb.operand(a, loc)) for a in t["args"]], t))
         copies = [(bi, strip_ptr(a[0]), strip_ptr(a[1]), a[2]) for (bi, p, nm, a, t) in calls if nm in ("copy", "copy_nonoverlapping") and p.startswith("core::") and len(a) == 3]
         cnt = {}
-        for (bi, p, nm, a, t) in calls:
-            # ---- (i) view length on a buffer-start Vec -------------------------------------
-            site = None
-            if p == "alloc::vec::Vec::<T>::from_raw_parts":
-                B, L, C = strip_ptr(a[0]), a[1], a[2]
-                site = ("from_raw_parts", B, L)
-            elif nm == "set_len" and "alloc::vec::Vec" in p:
-                V = strip_ref(a[0])
-                site = ("set_len", ("call", "alloc::vec::Vec::<T, A>::as_mut_ptr", (("ref", V),)), a[1])
-                Bv = V
-            if site is None:
-                continue
-            kind, B, L = site
-            # is L a *view* length (parameter `len` of a slot fn / field len of the consumed handle)?
-            view_len = (L[0] == "param" and b.locals[L[1]]["ty"] == "usize" and b.safety == "unsafe") or \
-                       (isinstance(L, tuple) and L[0] == "field" and L[2] == "len" and strip_ref(L[1])[0] == "param")
-            if not view_len:
-                continue
-            if b.id.endswith("rebuild_vec") or "reserve_inner" in b.id:
-                continue
-            n += 1
-            k0 = "%s|%s(view len)" % (b.id, kind)
-            c = cnt.get(k0, 0)
-            cnt[k0] = c + 1
-            key = k0 + ("#%d" % c if c else "")
-            ok = False
-            for (cbi, src, dst, cn) in copies:
-                if not (cfg.dominates(cbi, bi) and cbi != bi):
+        # ---- (i) view length on a buffer-start Vec: judged as sites (helpers in the views of their callers, rules/inline.resolve_sites) ----
+        if b.kind in ("fn", "assoc_fn", "closure") and not (b.id.endswith("rebuild_vec") or "reserve_inner" in b.id):
+            from .inline import resolve_sites
+            for x in resolve_sites(facts, b, lambda view, only: judge_view_len(facts, view, only), keep_names=("rebuild_vec", "offset_from")):
+                if x.get("skip"):
                     continue
-                if cn != L:
-                    continue
-                d0 = dst
-                same_dst = (d0 == B) or (is_call(d0, "as_mut_ptr") and is_call(B, "as_mut_ptr") and strip_ref(d0[2][0]) == strip_ref(B[2][0]))
-                if same_dst:
-                    ok = True
-            if ok:
-                res.ok(key, b.loc(bi), "copy(view ptr -> buffer start, len) dominates giving the Vec the view's length", nontrivial=True)
-            else:
-                res.bad(key, b.loc(bi), "a Vec over the buffer start gets the view's length without a dominating copy of the view to the buffer start: "
-                                        "wrong bytes whenever the view has a front offset")
+                n += 1
+                k0 = "%s|%s(view len)" % (b.id, x["kind"])
+                c = cnt.get(k0, 0)
+                cnt[k0] = c + 1
+                key = k0 + ("#%d" % c if c else "")
+                if x["ok"]:
+                    res.ok(key, b.loc(x["bi"]), x["text"], nontrivial=True)
+                else:
+                    res.bad(key, b.loc(x["bi"]), x["text"])
         # ---- (iii) a copy-back of the view to the buffer start is followed by giving the Vec exactly that length ----
         if not (b.id.endswith("rebuild_vec") or "reserve_inner" in b.id):
             for (cbi, src, dst, cn) in copies:
